@@ -45,8 +45,9 @@ def main():
         N, nm, p = rng.randint(1, 4), rng.randint(1, 3), rng.randint(1, 3)
         meas = rng.sample(['X', 'Y', 'Z'], nm)
         frames, ics, pcs = [], [], []
+        nT = rng.choice([nm, nm, 5, 3]) if nm > 1 else rng.choice([2, 5])       # incl. as many time points as measured species (a square data block)
         for k in range(N):
-            T = np.sort(np.array([0.0] + [rng.uniform(0.1, 4) for _ in range(4)]))
+            T = np.sort(np.array([0.0] + [rng.uniform(0.1, 4) for _ in range(nT - 1)]))
             frames.append(pd.DataFrame(dict(time=T, **{s: [rng.uniform(0, 6) for _ in T] for s in ['X', 'Y', 'Z']})))
             ics.append({rng.choice(['X', 'Y']): rng.choice([rng.uniform(1, 8), 0.0])})       # also an initial condition of exactly 0
             pcs.append(rng.choice([{rng.choice(['c', 'd']): rng.uniform(0.1, 1.0)}, {}]) if k > 0 else {rng.choice(['c', 'd']): rng.uniform(0.1, 1.0)})
